@@ -6,7 +6,7 @@ from zope.interface import implementer
 
 from foolscap.ipb import IConnectionHintHandler, InvalidHintError
 
-HINT_RE=re.compile(r"^i2p:([A-Za-z.0-9\-]+)(:(\d+){1,5})?$")
+HINT_RE=re.compile(r"^i2p:([A-Za-z.0-9\-]+)(:(\d{1,5}))?$")
 
 @implementer(IConnectionHintHandler)
 class _RunningI2P:
